@@ -215,7 +215,23 @@ macro_rules! seq {
     };
 }
 seq!(Vec<T>);
-seq!(VecDeque<T>);
+impl<T: Bridge> Bridge for VecDeque<T> {
+    fn to_val(&self) -> Val {
+        seq_to_val(self.iter())
+    }
+    // even lengths are built in the wrapped ring-buffer state, odd ones contiguous
+    fn from_val(v: &Val) -> Self {
+        crate::probe::make_deque(seq_items(v).iter().map(T::from_val).collect())
+    }
+    fn raw_check(&self, out: &mut Vec<String>) {
+        for x in self.iter().take(1 << 12) {
+            x.raw_check(out);
+            if out.len() > 8 {
+                break;
+            }
+        }
+    }
+}
 seq!(Box<[T]>);
 seq!(std::sync::Arc<[T]>);
 seq!(BTreeSet<T>, Ord);
@@ -479,6 +495,32 @@ impl Bridge for nalgebra::Point3<f32> {
     fn from_val(v: &Val) -> Self {
         let f = v.fields();
         nalgebra::Point3::new(f32::from_val(&f[0]), f32::from_val(&f[1]), f32::from_val(&f[2]))
+    }
+}
+impl Bridge for nalgebra::Isometry3<f32> {
+    fn to_val(&self) -> Val {
+        let (t, r) = (&self.translation.vector, &self.rotation.coords);
+        Val::Tuple([t.x, t.y, t.z, r.w, r.x, r.y, r.z].iter().map(|x| x.to_val()).collect())
+    }
+    fn from_val(v: &Val) -> Self {
+        let f: Vec<f32> = v.fields().iter().map(f32::from_val).collect();
+        nalgebra::Isometry3::from_parts(
+            nalgebra::Point3::new(f[0], f[1], f[2]).into(),
+            nalgebra::UnitQuaternion::new_unchecked(nalgebra::Quaternion::new(f[3], f[4], f[5], f[6])),
+        )
+    }
+}
+impl Bridge for nalgebra::Isometry3<f64> {
+    fn to_val(&self) -> Val {
+        let (t, r) = (&self.translation.vector, &self.rotation.coords);
+        Val::Tuple([t.x, t.y, t.z, r.w, r.x, r.y, r.z].iter().map(|x| x.to_val()).collect())
+    }
+    fn from_val(v: &Val) -> Self {
+        let f: Vec<f64> = v.fields().iter().map(f64::from_val).collect();
+        nalgebra::Isometry3::from_parts(
+            nalgebra::Point3::new(f[0], f[1], f[2]).into(),
+            nalgebra::UnitQuaternion::new_unchecked(nalgebra::Quaternion::new(f[3], f[4], f[5], f[6])),
+        )
     }
 }
 impl Bridge for nalgebra::Vector3<f64> {
